@@ -390,7 +390,11 @@ type ghostCtx struct {
 func (x *Exec) ghostAddr(is *IfaceSpec, name string, recv Val) *Addr {
 	for _, g := range is.Ghost {
 		if g.Name == name {
-			t := x.resolveType(&SpecEnv{x: x}, g.Type)
+			genv := &SpecEnv{x: x}
+			if sp, ok := x.P.SSA[is.Pkg]; ok {
+				genv.pkg = sp.Pkg
+			}
+			t := x.resolveType(genv, g.Type)
 			ref := recv.T
 			if recv.T.Sort == "Iface" {
 				ref = Term{app("i_val", recv.T), "Int"}
